@@ -34,8 +34,11 @@ Inductive hop :=
 | HAddCloser
 | HWithCancel (onq : bool)
 | HCancelFn (x : nat)
-| HStop
-| HQuiesce.
+| HStop (ctx : option nat)                          (* Stop / Quiesce called (in a goroutine) with the background
+                                                       context or the x-th WithCancelOn* context, live or
+                                                       cancelled: stopper.go only logs with it -- no such
+                                                       parameter in the model *)
+| HQuiesce (ctx : option nat).
 
 Definition op_label (o : hop) : label :=
   match o with
@@ -49,8 +52,8 @@ Definition op_label (o : hop) : label :=
   | HAddCloser => LAddCloser
   | HWithCancel q => LWithCancel q
   | HCancelFn x => LCancelFn x
-  | HStop => LCallStop
-  | HQuiesce => LCallQuiesce
+  | HStop _ => LCallStop
+  | HQuiesce _ => LCallQuiesce
   end.
 
 (** The internal step a goroutine would take next (everything except the end
@@ -239,15 +242,20 @@ Inductive ev :=
                                            events had been logged; m sampled after that *)
 | EBusy (upto : nat) (n : Z) (m : smp)
                                         (* NumTasks() returned n <> 0 at such a moment *)
-| EFinal (m : smp).                     (* controlled runs: every body the harness started has been
+| EFinal (m : smp)
+| ECtx (x : nat) (onq : bool) (c : bool) (m : smp)
+                                        (* context x, from WithCancelOnQuiesce (onq) or WithCancelOnStop,
+                                           has Err() != nil (c), read AFTER the sample m was taken *)
+| ECtxFn (x : nat).                     (* the cancel function returned with context x is about to be called *)                     (* controlled runs: every body the harness started has been
                                            told to return, Stop has been called, and the harness has
                                            waited (polling, long time-out) for the Stopper to settle *)
 
 Definition smp_of (e : ev) : option smp :=
   match e with
   | ERet _ _ m | EBegin _ m | EEnd _ m | EWStart _ m | EWEnd _ m | EAddCall _ m | EAddRet _ m
-  | EClose _ m | EStopRet _ m | EQuiRet _ m | EObs m | EIdle _ m | EBusy _ _ m | EFinal m => Some m
-  | EStart _ _ _ | EStopCall _ | EQuiCall _ => None
+  | EClose _ m | EStopRet _ m | EQuiRet _ m | EObs m | EIdle _ m | EBusy _ _ m | EFinal m
+  | ECtx _ _ _ m => Some m
+  | EStart _ _ _ | EStopCall _ | EQuiCall _ | ECtxFn _ => None
   end.
 
 Definition mem (i : nat) (l : list nat) : bool := existsb (Nat.eqb i) l.
@@ -604,6 +612,29 @@ Definition ruleL (l : list ev) : bool :=
                     | EFinal m => sd m && (let r := callret_ids l in forallb (fun k => mem k r) (call_ids l))
                     | _ => true end) l.
 
+(** ** K. the contexts follow the phases.  K1: once ShouldQuiesce (resp.
+    ShouldStop) was seen closed, a WithCancelOnQuiesce (resp. WithCancelOnStop)
+    context read afterwards is cancelled.  K2: the stop cancellation is not
+    delivered before the tasks are drained: once a WithCancelOnStop context
+    whose own cancel function was not called is seen cancelled, no task body
+    begins or ends any more. *)
+Definition ruleK1 (l : list ev) : bool :=
+  forallb (fun e => match e with
+                    | ECtx _ onq c m => implb (if onq then sq m else ss m) c
+                    | _ => true end) l.
+
+Fixpoint ruleK2 (fns : list nat) (cut : bool) (l : list ev) : bool :=
+  match l with
+  | [] => true
+  | e :: tl =>
+      match e with
+      | ECtxFn x => ruleK2 (x :: fns) cut tl
+      | ECtx x false true _ => ruleK2 fns (cut || negb (mem x fns)) tl
+      | EBegin _ _ | EEnd _ _ => negb cut && ruleK2 fns cut tl
+      | _ => ruleK2 fns cut tl
+      end
+  end.
+
 (** The code of the first rule the history breaks; 0 = the history is fine.
     1 refused task ran; 2 a task body at/after stop-channel close or Quiesce
     return; 3 accepted task never completed; 4 phase order in a sample;
@@ -612,7 +643,9 @@ Definition ruleL (l : list ev) : bool :=
     taken after drain); 9 a slot still taken although no task is left
     (NumTasks() = 0); 10 ErrThrottled although the semaphore had room;
     11 NumTasks() counts a call that was refused / returned an error or is
-    over; 12 the stopper did not stop although every body had returned. *)
+    over; 12 the stopper did not stop although every body had returned;
+    13 a WithCancelOnStop context cancelled while task bodies still run;
+    14 a context not cancelled although its channel was closed. *)
 Definition hist_code (caps : list nat) (l : list ev) : N :=
   let nsems := length caps in
   if negb (ruleA l) then 1%N
@@ -627,6 +660,8 @@ Definition hist_code (caps : list nat) (l : list ev) : N :=
   else if negb (ruleT caps l) then 10%N
   else if negb (ruleN l) then 11%N
   else if negb (ruleL l) then 12%N
+  else if negb (ruleK2 [] false l) then 13%N
+  else if negb (ruleK1 l) then 14%N
   else 0%N.
 
 (** * Cases *)
